@@ -72,6 +72,13 @@ def sources(tier, seed, ctx):
     for depth in ([1200] if tier == 'quick' else [1200, 3000]):
         for storage in ('built', 'reversed'):
             srcs.append({'k': 'codecdeep', 'depth': depth, 'storage': storage})
+    # counts at and around the powers of two of the format's word size (254 .. 258 nodes, 510 .. 514, 1022 .. 1026) and
+    # hundreds of output positions
+    for total in ([254, 255, 256, 257, 258, 511, 512, 513] if tier == 'quick' else [254, 255, 256, 257, 258, 510, 511, 512, 513, 514, 1022, 1023, 1024, 1025, 1026]):
+        srcs.append({'k': 'codecdeep', 'depth': total - 2, 'storage': 'built'})
+    for nouts in ([255, 256, 300] if tier == 'quick' else [127, 128, 255, 256, 257, 300, 1000]):
+        srcs.append({'k': 'codecdeep', 'depth': 40, 'storage': 'built', 'nouts': nouts})
+        srcs.append({'k': 'codecdeep', 'depth': 300, 'storage': 'reversed', 'nouts': nouts})
     note.append('chains of 1200 gates (kind codecdeep)')
     nrand = 300 if tier == 'quick' else 5000
     for j in range(nrand):
@@ -103,6 +110,8 @@ def record(src):
         n = src['depth']
         gates = [(f'g{k}', 'XOR' if k % 2 else 'NOT', ((f'g{k - 1}', 'y') if k % 2 else (f'g{k - 1}' if k else 'x',))) for k in range(n)]
         outs = [f'g{n - 1}', f'g{n // 2}', 'y']
+        if src.get('nouts'):
+            outs = [f'g{(7 * j) % n}' if j % 5 else 'x' for j in range(src['nouts'])]      # many output positions, repeats included
         if src.get('storage') == 'reversed':
             text = 'INPUT(x)\nINPUT(y)\n' + '\n'.join(f'{l} = {t}({", ".join(o)})' for l, t, o in reversed(gates)) + '\n' + ''.join(f'OUTPUT({o})\n' for o in outs)
             c = Circuit.from_bench_string(text)
